@@ -74,18 +74,26 @@ def check(ctx) -> Result:
         txt = src(eq.node)
         res.add(f"isinstance(value, {ci.name})" in txt and "==" in txt, "Q-hash-follows-eq", ci.name + ".__eq__", eq.site(), eq.qualname, "type-checked list equality", "__eq__ no longer a type-checked comparison of the occupation lists", construct=txt[:160])
     # AnnotatedState sorts labels at construction
+    from ..inline import inlined
     ini = A.methods["__init__"]
-    st = [a for a in walk_no_nested(ini.node) if isinstance(a, ast.Assign) and src(a.targets[0]) == "self.__s"]
-    oks = len(st) == 1 and isinstance(st[0].value, ast.ListComp) and isinstance(st[0].value.elt, ast.Call) and src(st[0].value.elt.func) == "sorted"
-    res.add(oks, "Q-label-order-canonical", "AnnotatedState.__init__", ini.site(), ini.qualname, "each label list is copied and sorted at construction (multiset semantics)", "label lists are not sorted/copied at construction: label order would matter for equality and hashing", construct=src(st[0]) if st else "")
+    ini_fn = inlined(ini.node)
+    st = [a for a in walk_no_nested(ini_fn) if isinstance(a, ast.Assign) and src(a.targets[0]) == "self.__s"]
+    any_sorted = any(isinstance(c, ast.Call) and (src(c.func) == "sorted" or (isinstance(c.func, ast.Attribute) and c.func.attr == "sort")) for c in ast.walk(ini_fn))
+    in_value = len(st) == 1 and any((isinstance(c, ast.Call) and src(c.func) == "sorted") or (isinstance(c, ast.Name) and c.id == "sorted") for c in ast.walk(st[0].value))
+    if in_value:
+        res.ok("Q-label-order-canonical", "AnnotatedState.__init__", ini.site(st[0]), ini.qualname, "each label list is copied and sorted at construction (multiset semantics)")
+    elif not any_sorted:
+        res.bad("Q-label-order-canonical", "AnnotatedState.__init__", ini.site(), ini.qualname, "label lists are not sorted at construction: label order would matter for equality and hashing", construct=src(st[0]) if st else "")
+    else:
+        res.frozen(False, "Q-label-order-canonical", "AnnotatedState.__init__", ini.site(), ini.qualname, "", "sorting of the label lists is not part of the stored value expression (not recognised)", construct=src(st[0]) if st else "")
     # counts
     for ci, fldexpr in ((S, "self.__s"),):
         np_ = ci.getters["n_photons"]
         nm = ci.getters["n_modes"]
         r1 = [r for r in walk_no_nested(np_.node) if isinstance(r, ast.Return)][0]
         r2 = [r for r in walk_no_nested(nm.node) if isinstance(r, ast.Return)][0]
-        res.add(src(r1.value) == f"sum({fldexpr})", "Q-counts", "State.n_photons", np_.site(), np_.qualname, "photon number is the sum of occupations", "n_photons is not the sum of the occupations", construct=src(r1))
-        res.add(src(r2.value) == f"len({fldexpr})", "Q-counts", "State.n_modes", nm.site(), nm.qualname, "mode count is the list length", "n_modes is not the length of the occupation list", construct=src(r2))
+        res.frozen(src(r1.value) in (f"sum({fldexpr})", "sum(self.s)", f"int(sum({fldexpr}))"), "Q-counts", "State.n_photons", np_.site(), np_.qualname, "photon number is the sum of occupations", "n_photons is not in the form sum(occupations)", construct=src(r1))
+        res.frozen(src(r2.value) in (f"len({fldexpr})", "len(self.s)"), "Q-counts", "State.n_modes", nm.site(), nm.qualname, "mode count is the list length", "n_modes is not in the form len(occupations)", construct=src(r2))
     # C5: a list captured by State(...) is dead afterwards (whole package)
     ncap = 0
     for fi in ctx.ix.all_functions():
@@ -141,9 +149,22 @@ def check(ctx) -> Result:
     # seeds
     for qn, gen in (("random_unitary", "rvs"), ("random_permutation", "default_rng")):
         f = ctx.func(RND, qn)
-        proc = [a for a in walk_no_nested(f.node) if isinstance(a, ast.Assign) and src(a.value) == "process_random_seed(seed)"]
-        calls = [c for c in walk_no_nested(f.node) if isinstance(c, ast.Call) and src(c.func).split(".")[-1] == gen]
-        tgt = src(proc[0].targets[0]) if proc else None
-        uses = bool(calls) and tgt is not None and all(any(src(a) == tgt for a in c.args) or any(src(k.value) == tgt for k in c.keywords) for c in calls) and all(c.lineno > proc[0].lineno for c in calls)
-        res.add(uses, "J3-seed-passed", qn, f.site(), f.qualname, "validated seed is handed to the generator", "the generator is not built from the validated seed: results are not reproducible", construct=";".join(src(c) for c in calls)[:160])
+        fn_ = inlined(f.node)
+        calls = [c for c in walk_no_nested(fn_) if isinstance(c, ast.Call) and src(c.func).split(".")[-1] == gen]
+        sp = [p_ for p_ in f.params() if "seed" in p_]
+        if not calls or not sp:
+            res.frozen(False, "J3-seed-passed", qn, f.site(), f.qualname, "", f"generator call `{gen}` / seed parameter not recognised", construct=qn)
+            continue
+        def _args(c):
+            return list(c.args) + [k.value for k in c.keywords]
+        validated = all(any(isinstance(x, ast.Call) and src(x.func) == "process_random_seed" and x.args and src(x.args[0]) == sp[0] for a_ in _args(c) for x in ast.walk(a_))
+                        or any(isinstance(a_, ast.Name) and any(isinstance(d, ast.Assign) and src(d.targets[0]) == a_.id and "process_random_seed(" in src(d.value) for d in walk_no_nested(fn_)) for a_ in _args(c)) for c in calls)
+        raw = any(isinstance(a_, ast.Name) and a_.id == sp[0] for c in calls for a_ in _args(c))
+        seedless = any(not any(sp[0] in src(a_) or "seed" in src(a_).lower() for a_ in _args(c)) for c in calls)
+        if validated:
+            res.ok("J3-seed-passed", qn, f.site(calls[0]), f.qualname, "validated seed is handed to the generator")
+        elif raw or seedless:
+            res.bad("J3-seed-passed", qn, f.site(calls[0]), f.qualname, "the generator is not built from the validated seed: results are not reproducible / an invalid seed is not rejected", construct=";".join(src(c) for c in calls)[:160])
+        else:
+            res.frozen(False, "J3-seed-passed", qn, f.site(calls[0]), f.qualname, "", "how the seed reaches the generator is not recognised", construct=";".join(src(c) for c in calls)[:160])
     return res
